@@ -1,0 +1,47 @@
+//go:build verif
+
+package protocol
+
+import (
+	"github.com/enfein/mieru/v3/pkg/common"
+	"github.com/enfein/mieru/v3/pkg/metrics"
+)
+
+// Exports for the external verification harness (C19, Session.Read accounting). Add-only; compiled only with -tags verif.
+
+// VerifC19ReadStream builds a bare server session whose receive queue holds the
+// given payloads as data segments (in order) and whose uploadBytes is counter,
+// then calls the real Session.Read once per element of wants with a buffer of
+// that size. A call that finds nothing to read returns through an already
+// expired read deadline. It reports, per call, the bytes returned and the value
+// of the counter after the call.
+func VerifC19ReadStream(counter metrics.Metric, payloads [][]byte, wants []int) (out [][]byte, counted []int64) {
+	s := NewSession(19, false, 1400, nil, nil)
+	s.transportProtocol = common.StreamTransport
+	s.forwardStateTo(sessionAttached)
+	s.forwardStateTo(sessionEstablished)
+	s.uploadBytes = counter
+	for i, p := range payloads {
+		seg := &segment{
+			metadata: &dataAckStruct{
+				baseStruct: baseStruct{protocol: uint8(dataClientToServer)},
+				sessionID:  19,
+				seq:        uint32(i),
+				payloadLen: uint16(len(p)),
+			},
+			payload:   p,
+			transport: common.StreamTransport,
+		}
+		if !s.recvQueue.Insert(seg) {
+			panic("VerifC19ReadStream: receive queue is full")
+		}
+	}
+	for _, w := range wants {
+		b := make([]byte, w)
+		s.readDeadline.Store(1) // 1 microsecond after the epoch: expired
+		n, _ := s.Read(b)
+		out = append(out, b[:n])
+		counted = append(counted, counter.Load())
+	}
+	return out, counted
+}
